@@ -419,7 +419,9 @@ def xsum(*args, func=np.sum):
     return func(inp[~np.isnan(inp)])
 
 
-FUNCTIONS['PRODUCT'] = wrap_func(functools.partial(xsum, func=np.prod))
+FUNCTIONS['PRODUCT'] = wrap_func(functools.partial(
+    xsum, func=lambda v: np.prod(v) if v.size else 0.0
+))
 FUNCTIONS['SUM'] = wrap_func(xsum)
 FUNCTIONS['SUMIF'] = wrap_func(functools.partial(xfilter, xsum))
 FUNCTIONS['SUMSQ'] = wrap_func(functools.partial(
